@@ -177,5 +177,5 @@ def run(run, P, only=None, report=True):
             run.instance('R-DANGLING-FIELD', '%s: %s is assigned again (or its holder released) on every path after %s()' % (name, short(node), sev['e'].get('fn')))
         run.oblige('R-DANGLING-FIELD', True, '%s:sites' % name)
         solve(f, Env(), on_event, on_exit, keys, R, key_fn=lambda e: e.ts.get('pend'), max_envs=256)
-    run.require(n >= 20 or run.fixture_mode or run.cfg != 'base' or only, 'R-DANGLING-FIELD: fewer than 20 releases of a record field found')
+    run.require_count(n >= 20 or run.fixture_mode or run.cfg != 'base' or only, 'R-DANGLING-FIELD: fewer than 20 releases of a record field found')
     return found
